@@ -109,9 +109,9 @@ def solver_configs(backend, tier):
     cfgs = [('direct', {}), ('arnoldi', {}), ('arnoldi', {'precon': 'diag'}), ('arnoldi', {'precon': 'diag', 'truncate': 1}), ('direct', {'precon': 'diag'})]
     if backend == 'scipy':
         cfgs += [('direct', {'precon': 'splu'}), ('arnoldi', {'precon': 'spilu'}), ('cg', {}), ('cg', {'precon': 'diag'}), ('gmres', {}),
-                 ('gmres', {'precon': 'direct'}), ('bicgstab', {}), ('bicg', {}), ('cgs', {}), ('lgmres', {})]
+                 ('gmres', {'precon': 'direct'}), ('bicgstab', {}), ('bicg', {}), ('cgs', {}), ('lgmres', {'maxiter': 20})]
         if tier == 'thorough':
-            cfgs += [('arnoldi', {'precon': 'spilu0'}), ('bicgstab', {'precon': 'spilu'}), ('lgmres', {'precon': 'diag'})]
+            cfgs += [('arnoldi', {'precon': 'spilu0'}), ('bicgstab', {'precon': 'spilu'}), ('lgmres', {'precon': 'diag', 'maxiter': 20})]
     return cfgs
 
 
@@ -247,7 +247,7 @@ def judge(A, c, out):
         if x.dtype.kind != 'f':
             return 'lin:bad-dtype', 'returned dtype {}'.format(x.dtype)
         if not numpy.isfinite(x).all():
-            return 'lin:nonfinite-returned:' + tag, 'returned non-finite values {}'.format(x.tolist())
+            return 'lin:nonfinite-returned', 'returned non-finite values {}'.format(x.tolist())
         if x[~J].tobytes() != x0[~J].tobytes():
             return 'lin:constraint-violated:' + ('bool' if c['cons']['t'] == 'b' else 'float') + (':multicol' if x.ndim > 1 else ''), 'constrained entries {} differ from the prescription {}'.format(x[~J].tolist(), x0[~J].tolist())
         if I.sum() != J.sum():
